@@ -14,6 +14,15 @@ BASELINE_OFF = ('cd /repo && env -u ELECTRUMX_VERIF /venv/bin/python -m pytest -
 _IDX_NOTE = ('Trusted: the fake plyvel stand-in (bound to real LevelDB by the conformance run), '
              'the reference indexer; only the default schedule is used here (schedules: C06/C07).')
 CHECKS = {
+    'C08': ('exploration',
+            'exhaustive bounded enumeration of mempool state sequences on the real tracker in the full system',
+            'A 7-transaction universe (child, grandchild, mixed inputs, generation-like input, several '
+            'outputs to one script, spend of a prefix-colliding output) over a really indexed chain; '
+            'all sequences of up to 2/3 daemon states with optional confirming blocks x delivery order '
+            'x fetch batching; every refresh that completes on a stable daemon - the first included - '
+            'is compared with the mempool reference, and the touched sets with the gained/lost scripts.',
+            'Chunking helper replaced by an explorer-controlled partitioner; atomic daemon state '
+            'changes (races are C09); fake plyvel stand-in.', '3/C08'),
     'C17': ('exploration',
             'exhaustive enumeration of header-range triples and of MAX_SEND x history-length configurations over the wire',
             'On a really indexed chain of 2,020 blocks: block.headers for every (start, count, cp) around '
